@@ -1256,7 +1256,9 @@ class C16(Check):
                     ctx.count("newton_solve_calls")
                     for key, what in judge_newton(rec):
                         failures.append(Failure(key, what, dict(replay, newton={"opts": rec["opts"], "ret": rec.get("ret"), "norms": rec["norms"][:50]})))
-                    if "ret" in rec and len(nlines) < (4000 if ctx.quick else 20000):
+                    if "ret" in rec and len(rec["norms"]) > (3000 if ctx.quick else 40000):
+                        ctx.count("newton_long_traces_not_replayed")  # thousands of exact rationals per line: oracle only
+                    elif "ret" in rec and len(nlines) < (4000 if ctx.quick else 20000):
                         nlines.append(newton_line(rec))
                         nrecs.append((rec, replay))
                 if len(ctx.samples) < 4 and (obs["kinds_hit"] or partial) and ctx.rng.random() < 0.2:
